@@ -336,14 +336,34 @@ func TestCluster(t *testing.T) {
 			for _, name := range m.names {
 				m.part[name] = 0
 			}
-			for _, name := range m.names {
-				n := m.nodes[name]
-				for _, p := range m.names {
-					n.view[p] = true
+			if healthy && rng.Intn(2) == 0 {
+				// staggered start (not a fault): the last-named instance starts alone, at position 0, and
+				// the others join a few seconds later - its position, and with it its cluster wait, changes
+				// after its pipeline was built
+				order := append([]string{m.names[len(m.names)-1]}, m.names[:len(m.names)-1]...)
+				for i, name := range order {
+					n := m.nodes[name]
+					for _, p := range m.names {
+						n.view[p] = p == name || m.nodes[p].up
+					}
+					m.start(n, nil, nil)
+					m.setViews()
+					if i == 0 {
+						synctest.Wait()
+						time.Sleep(time.Duration(2000+rng.Intn(3000))*time.Millisecond + 7*time.Millisecond)
+					}
 				}
-			}
-			for _, name := range m.names {
-				m.start(m.nodes[name], nil, nil)
+				res.Count("staggered_starts", 1)
+			} else {
+				for _, name := range m.names {
+					n := m.nodes[name]
+					for _, p := range m.names {
+						n.view[p] = true
+					}
+				}
+				for _, name := range m.names {
+					m.start(m.nodes[name], nil, nil)
+				}
 			}
 			synctest.Wait()
 			horizon := 3*m.cfg.T.ri + 2*time.Minute
